@@ -597,6 +597,85 @@ theorem apply_keys (s : Sess) (c : Ctx) (op : SOp) (h : UKeys s) : UKeys (op.app
           simp only [Bool.not_true, Bool.false_eq_true, if_false]
           exact diassociateAll_keys ({ s with pdrs := alDel s.pdrs pdrid, q := alDel s.q pdrid } : Sess) us c1 h
 
+/-! ### losing a referring PDR does not remove a URR from the session's table -/
+
+theorem alSet_keys_of_some [DecidableEq κ] (l : List (κ × ν)) (k : κ) (v : ν) (h : (alGet l k).isSome = true) :
+    (alSet l k v).map (·.1) = l.map (·.1) := by
+  induction l with
+  | nil => simp [alGet] at h
+  | cons p l ih =>
+    by_cases hp : p.1 = k
+    · simp [alSet, hp]
+    · have hp' : (p.1 == k) = false := by simpa using hp
+      simp only [alGet, hp', Bool.false_eq_true, if_false] at h
+      simp only [alSet, hp', Bool.false_eq_true, if_false, List.map_cons]
+      rw [ih h]
+
+theorem diassociate_keysEq (s : Sess) (u : Nat) (c : Ctx) : (s.diassociate u c).1.urrs.map (·.1) = s.urrs.map (·.1) := by
+  unfold Sess.diassociate
+  cases hg : alGet s.urrs u with
+  | none => rfl
+  | some info =>
+    simp only []
+    have key : (alSet s.urrs u { info with refPdrNum := info.refPdrNum - 1 }).map (·.1) = s.urrs.map (·.1) :=
+      alSet_keys_of_some s.urrs u _ (by rw [hg]; rfl)
+    split
+    · split
+      · split <;> exact key
+      · exact key
+    · rfl
+
+theorem diassociateAll_keysEq (s : Sess) (us : List Nat) (c : Ctx) :
+    (s.diassociateAll us c).1.urrs.map (·.1) = s.urrs.map (·.1) := by
+  let body : Nat → Sess × List Report → Ctx → (Sess × List Report) × Ctx := fun u acc c =>
+      let (s2, c2, r) := acc.1.diassociate u c
+      ((s2, acc.2 ++ r), c2)
+  let R : List Nat → Sess × List Report → Ctx → Prop := fun _ st _ => st.1.urrs.map (·.1) = s.urrs.map (·.1)
+  have hb : ∀ keys k st c', k ∈ keys → R keys st c' → R (keys.erase k) (body k st c').1 (body k st c').2 := by
+    intro keys k st c' _ hr
+    show (st.1.diassociate k c').1.urrs.map (·.1) = s.urrs.map (·.1)
+    rw [diassociate_keysEq]; exact hr
+  exact rangeMap_inv s.localID .query .urr body R hb us.length us (s, []) c (Nat.le_refl _) rfl
+
+/-- Remove PDR and Update PDR — also when they take a URR's last referring PDR away and its usage is returned as a
+    termination report — leave the set of URRs the session knows exactly as it was -/
+theorem detach_keeps_urr_table (s : Sess) (ie : RuleIE) (c : Ctx) :
+    (s.removePDR ie c).1.urrs.map (·.1) = s.urrs.map (·.1) ∧ (s.updatePDR ie c).1.urrs.map (·.1) = s.urrs.map (·.1) := by
+  constructor
+  · unfold Sess.removePDR
+    cases hid : ie.id with
+    | none => rfl
+    | some pdrid =>
+      simp only []
+      cases hg : alGet s.pdrs pdrid with
+      | none => rfl
+      | some us =>
+        simp only []
+        rcases hc : c.call { seid := s.localID, op := .remove, kind := .pdr, id := pdrid } with ⟨c1, a⟩
+        simp only []
+        cases hok : a.ok with
+        | false => rfl
+        | true =>
+          simp only [Bool.not_true, Bool.false_eq_true, if_false]
+          exact diassociateAll_keysEq ({ s with pdrs := alDel s.pdrs pdrid, q := alDel s.q pdrid } : Sess) us c1
+  · simp only [Sess.updatePDR]
+    cases hg : alGet s.pdrs (ie.id.getD 0) with
+    | none => rfl
+    | some old =>
+      simp only []
+      rcases hc : c.call { seid := s.localID, op := .update, kind := .pdr, id := ie.id.getD 0 } with ⟨c1, a⟩
+      simp only []
+      cases hok : a.ok with
+      | false => rfl
+      | true =>
+        simp only [Bool.not_true, Bool.false_eq_true, if_false]
+        have hd := diassociateAll_keysEq s (old.filter (· ∉ ie.urrs.eraseDups)) c1
+        rcases hdd : s.diassociateAll (old.filter (· ∉ ie.urrs.eraseDups)) c1 with ⟨s2, c2, rs⟩
+        rw [hdd] at hd
+        simp only [] at hd ⊢
+        show ((ie.urrs.eraseDups.filter (· ∉ old)).foldl bumpRef s2.urrs).map (·.1) = s.urrs.map (·.1)
+        rw [foldl_bumpRef_keys]; exact hd
+
 /-! ### the SEID of a session is not touched by its rule operations -/
 
 theorem diassociate_localID (s : Sess) (u : Nat) (c : Ctx) : (s.diassociate u c).1.localID = s.localID := by
